@@ -143,6 +143,10 @@ func (e *treeEngine) Generate(prop string, r *simrt.RNG, tier string, run int) *
 		sc.Ops = append(sc.Ops, pa)
 		return sc
 	}
+	if prop == "C26" && r.Chance(1, 4) {
+		// the add/delete-on-request mode of the blockchain module (parallel chains)
+		sc.Knobs["para"] = 1
+	}
 	trunk := r.Range(12, 16)
 	forks := r.Range(1, 4)
 	maxBranch := 6
@@ -208,9 +212,114 @@ func (e *treeEngine) Execute(t *testing.T, ctx *simrt.Ctx) *simrt.Violation {
 	return viol
 }
 
+// runPara drives the blockchain module the way a parallel-chain consensus does
+// (blockchain.isParaChain): blocks are added AND deleted on request. The blocks
+// of the generated tree are visited in the scenario's delivery order; a block
+// whose parent is the tip is added, a block whose parent is lower on the current
+// chain is added after the blocks above its parent were deleted, anything else
+// is skipped. The sequence log must replay to the chain after every step.
+func (e *treeEngine) runPara(ctx *simrt.Ctx) *simrt.Violation {
+	sc := ctx.Sc
+	uid := fmt.Sprintf("%s-%d-%d", sc.Property, sc.Run, ctx.Seq())
+	w := NewWorld(ctx, "fac-"+uid, simnode.Opts{})
+	defer w.Fac.Close()
+	defer w.Fac.Disk.Remove()
+	edit := func(s string) string { return replaceOnce(s, "isParaChain=false", "isParaChain=true") }
+	sut := simnode.New(simnode.Opts{ID: "sut-" + uid, StubMempool: true, EditToml: edit})
+	defer func() { sut.Close() }()
+	defer sut.Disk.Remove()
+	simrt.Settle()
+	time.Sleep(2 * time.Second)
+	mainSeq := int64(0)
+	byHash := map[string]*Built{}
+	onChain := func(hash []byte) (int64, bool) {
+		h := sut.Chain.GetBlockHeight()
+		for i := int64(0); i <= h; i++ {
+			if rh, err := sut.API.GetBlockHash(&types.ReqInt{Height: i}); err == nil && string(rh.Hash) == string(hash) {
+				return i, true
+			}
+		}
+		return 0, false
+	}
+	for i := range sc.Ops {
+		op := &sc.Ops[i]
+		ctx.CurOp = i
+		ctx.Step()
+		switch op.K {
+		case "blk":
+			if b := w.BuildOp(op); b != nil {
+				byHash[string(b.Hash)] = b
+			}
+		case "restart":
+			disk := sut.Disk
+			sut.Close()
+			simrt.Settle()
+			sut = simnode.New(simnode.Opts{ID: fmt.Sprintf("sut-%s-r%d", uid, i), Disk: disk, StubMempool: true, EditToml: edit})
+			simrt.Settle()
+			time.Sleep(2 * time.Second)
+			ctx.Fault("restart")
+		case "dlv":
+			b := w.Blocks[int(op.Int(0))]
+			if b == nil {
+				continue
+			}
+			if _, on := onChain(b.Hash); on {
+				continue
+			}
+			ph, ok := onChain(b.Block.ParentHash)
+			if !ok {
+				ctx.Probe("para_skipped_parent_not_on_chain")
+				if b.Height == 1 {
+					g0, _ := sut.API.GetBlockHash(&types.ReqInt{Height: 0})
+					simrt.Failf("para mode: the node's genesis %x is not the factory's %x", g0.GetHash(), b.Block.ParentHash)
+				}
+				continue
+			}
+			for sut.Chain.GetBlockHeight() > ph {
+				tip, err := sut.Chain.GetBlock(sut.Chain.GetBlockHeight())
+				if err != nil {
+					simrt.Failf("GetBlock(tip): %v", err)
+				}
+				mainSeq++
+				if err := sut.Chain.ProcDelParaChainBlockMsg(false, &types.ParaChainBlockDetail{Blockdetail: tip, Sequence: mainSeq}, "self"); err != nil {
+					return ctx.Violate("seqlog", "para/delete-tip-refused", "deleting the tip (height %d) on request was refused: %v", tip.Block.Height, err)
+				}
+				ctx.Fault("tip_deleted_on_request")
+				ctx.Probe("reorg") // blocks taken off and another branch put on
+				if v := checkSequenceLog(sut); v != nil {
+					v.OpIndex = i
+					v.Sig = "para/after-delete/" + v.Sig
+					return v
+				}
+			}
+			mainSeq++
+			_, err := sut.Chain.ProcAddParaChainBlockMsg(false, &types.ParaChainBlockDetail{Blockdetail: &types.BlockDetail{Block: types.Clone(b.Block).(*types.Block)}, Sequence: mainSeq}, "self")
+			if err != nil {
+				return ctx.Violate("seqlog", "para/add-refused", "adding valid block id %d (height %d) on top of its parent, the tip, was refused: %v", b.ID, b.Height, err)
+			}
+			ctx.Probe("para_block_added")
+			if v := ChainInvariant(sut); v != nil {
+				v.OpIndex = i
+				return v
+			}
+			if v := checkSequenceLog(sut); v != nil {
+				v.OpIndex = i
+				v.Sig = "para/after-add/" + v.Sig
+				return v
+			}
+		}
+	}
+	ctx.CurOp = len(sc.Ops)
+	ctx.Probe("para_history")
+	return nil
+}
+
 func (e *treeEngine) run(ctx *simrt.Ctx) *simrt.Violation {
 	if ctx.Sc.Knob("exhaust", 0) == 1 {
 		return e.runExhaustive(ctx)
+	}
+	if ctx.Sc.Knob("para", 0) == 1 {
+		return e.runPara(ctx)
 	}
 	sc := ctx.Sc
 	uid := fmt.Sprintf("%s-%d-%d", sc.Property, sc.Run, ctx.Seq())
